@@ -233,6 +233,7 @@ def run(chk, facts_dir, tier):
             chk.ok("R17.4", "%s: %d reads, each after a flushed-offset bound check" % (path.split("::")[-1], len(reads)), b.where())
     # R5.4 (reopen clause) is shared with C05
     _marker_width(chk, prog)
+    _header_fits(chk, prog)
     return {}
 
 
@@ -339,3 +340,50 @@ def _returned_is_checked(chk, prog):
                 chk.fail("R17.1", path, "returned-not-checked", "the record returned in Ok is cut from %s, which is not among the checksummed buffers %s" % (sorted(extra), sorted(checked)), b, s["line"])
             else:
                 chk.ok("R17.1", "%s: returned header/data are cut from the checksummed buffers" % path.split("::")[-1], b.where(s["line"]))
+
+
+def _is_H(t):
+    t = strip(t)
+    return t[0] == "const" and str(t[1]).replace("const ", "").strip() == "H"
+
+
+def _header_fits(chk, prog):
+    """R17.6: a corrupted length word can announce a payload shorter than the fixed user header"""
+    chk.rule("R17.6", "HEADER FITS: in every reader the payload is split at the user-header size H (`payload[..H]`, `payload[H..]`, `buf[H..payload_len]`) only on the edge of a "
+                      "comparison that guarantees payload_len >= H; a length word damaged so that payload_len < H must produce an error (checksum / bounds), not a slice-index panic")
+    n = 0
+    for path in READERS:
+        b = prog.body(path)
+        ev = Ev(prog, b)
+        guards = []
+        for c in comparisons(prog, b, ev):
+            a, d, op = c["a"], c["b"], c["op"]
+            if _is_H(d) and not _is_H(a):
+                pass
+            elif _is_H(a) and not _is_H(d):
+                op = SWAP[op]
+                a = d
+            else:
+                continue
+            # a is compared with H: it must be the decoded payload length (the masked length word)
+            if not any(isinstance(x, tuple) and x and x[0] == "bin" and x[1] == "BitAnd" for x in walk(a)):
+                continue
+            sw = switch_on(b, c["sw_block"], c["lhs"]["l"])
+            if not sw:
+                continue
+            edge = sw[1] if op == "Lt" else (sw[0] if op == "Ge" else None)       # payload_len >= H holds on this edge
+            if edge is not None:
+                guards.append((c["sw_block"], edge))
+        for bi, t in b.calls():
+            if not (b.callee_decl(t) or "").endswith("Index::index") or len(t["args"]) != 2:
+                continue
+            r = strip(ev.operand(t["args"][1], (bi, "T")))
+            if r[0] != "agg" or not any(_is_H(x) for x in r[2]):
+                continue
+            n += 1
+            if any(edge_dominates(b, gb, ge, bi) for gb, ge in guards):
+                chk.ok("R17.6", "%s L%s: split at H under payload_len >= H" % (path.rsplit("::", 1)[-1], t.get("line")), b.where(t["line"]))
+            else:
+                chk.fail("R17.6", path, "header-split-unguarded", "the payload is split at the header size H without a preceding `payload_len >= H`: a single bit flip in the length word "
+                         "(e.g. 1 -> 0 for an empty record) makes the reader panic instead of reporting corruption", b, t["line"])
+    chk.floor("R17.6", n, 4)
